@@ -16,7 +16,7 @@ RULE = (
     "every image over a 3-4 letter dyadic alphabet on the declared grids (Cartesian 1-2 dim with all periodicity masks, polar, spherical, "
     "cylindrical) x all threshold rules x all affine maps (a,b) x minimal radii; images in which a cell lies within 1e-9*range of the "
     "reference threshold are screened (only possible for 'mean'/'otsu'); non-trivial = non-constant image"
-    "; exact affine maps include 2^-30 and (2^-12, 1024); DropletTracker and EmulsionTimeCourse.from_storage are driven as further entry points on all ordered pairs of a 24-image catalogue x affine maps"
+    "; annular polar / spherical grids with an own radial model of the result; all analyses of a block run on one grid object (cylindrical dz = 0.8); exact affine maps include 2^-30 and (2^-12, 1024); DropletTracker and EmulsionTimeCourse.from_storage are driven as further entry points on all ordered pairs of a 24-image catalogue x affine maps"
 )
 ASSUMPTIONS = [
     "dyadic values and dyadic affine maps, so a*x+b is exact and '>' has no rounding knife-edge",
@@ -54,8 +54,10 @@ def blocks(tier, seed):
     add({"kind": "polar", "n": 4, "R": 4.0}, ALPH3)
     add({"kind": "sph", "n": 4, "R": 2.0}, ALPH3)
     add({"kind": "polar", "n": 6, "R": 3.0}, [0.0, 1.0])
+    add({"kind": "polar", "n": 4, "R": 5.0, "r0": 1.0}, ALPH3)  # annular grids
+    add({"kind": "sph", "n": 4, "R": 4.5, "r0": 2.5}, ALPH3)
     for pz in (False, True):
-        add({"kind": "cyl", "shape": [2, 3], "R": 2.0, "z": [0.0, 3.0], "periodic_z": pz}, alph3, 1)
+        add({"kind": "cyl", "shape": [2, 3], "R": 2.0, "z": [0.0, 2.4], "periodic_z": pz}, alph3, 1)  # dz = 0.8
     add(cart((8,), (True,)), [0.0, 1.0], 1)
     # the droplet tracker is a second entry point: every frame must be analysed with ITS OWN threshold
     for rule in RULES + [0.25]:
@@ -139,7 +141,7 @@ def run_case(case, ctx):
     g, alph = case["grid"], case["alph"]
     shape = tuple(g["shape"]) if "shape" in g else (g["n"],)
     base = np.array([alph[i] for i in case["cells"]], float).reshape(shape)
-    grid = geom.make_grid(g)
+    grid = geom.make_grid(g, share=True)  # one grid object per worker process and grid: all analyses of a block run on it
     tags = {"grid": g["kind"]}
     const = np.ptp(base) == 0
     if not const:
@@ -187,6 +189,16 @@ def run_case(case, ctx):
                 uniq.setdefault((data > T).tobytes(), T)
             refs = [reference(data, T, 0.0)[0] for T in uniq.values()]
             ctx.check("C18.same-as-mask", any(got == r for r in refs), {"rule": rule, "affine": [a, b], "T": Ts, "got": got, "want": refs[0], "data": data}, tags2)
+            if g["kind"] in ("polar", "sph") and len(Ts) == 1:
+                # radially symmetric grids: own model of the result (cells above the threshold from the innermost one outwards)
+                above = data > Ts[0]
+                k = int(np.argmin(above)) if not above.all() else len(above)
+                dr = geom.radial_spacing(g)
+                want_r = [g.get("r0", 0.0) + k * dr] if above[0] else []
+                ok = len(got) == len(want_r) and all(abs(x[2] - w) <= 1e-12 * max(1.0, w) and not any(x[1]) for x, w in zip(got, want_r))
+                ctx.check("C18.own-radial-model", ok, {"rule": rule, "got": got, "want_radius": want_r, "data": data}, tags2)
+                if g.get("r0"):
+                    ctx.count("annular-grids")
             if (a, b) == AFFINE[0]:
                 results[str(rule)] = got
             else:
@@ -268,4 +280,4 @@ def run_tracker(case, ctx):
 
 
 def expected_positive(tier):
-    return ["C18.same-as-mask", "C18.affine", "C18.filter", "C18.otsu-definition", "non-constant-image", "filter-removed-some", "filter-kept-some", "tracker-frames"]
+    return ["C18.same-as-mask", "C18.affine", "C18.filter", "C18.otsu-definition", "non-constant-image", "filter-removed-some", "filter-kept-some", "tracker-frames", "C18.own-radial-model", "annular-grids"]
